@@ -362,6 +362,10 @@ class ProtocolContext:
             self._lock.release()
             return
 
+        if isinstance(self._state, Inactive):  # no transport: nothing can be sent, so
+            self._lock.release()  # leave the buffer as it is (e.g. connection just lost)
+            return
+
         while True:
             try:
                 *_, self._cmd, self._qos, self._fut = self._que.get_nowait()
